@@ -64,9 +64,18 @@ def basis_name(basis):
     return 'verif_' + hashlib.sha256(repr(basis).encode()).hexdigest()[:8]
 
 
-def pool(rng, n_sub, max_n, cap, shipped=True, min_n=1):
+# Bases without unary operators: few functions per complexity, so complexity 7 (functions with 3 and 4 parameters) is affordable
+DEEP = [([["x", "a"], [], ["+", "*"]], 7), ([["x", "a"], [], ["+", "*"]], 5), ([["x", "a"], [], ["+", "-"]], 7), ([["x", "a"], [], ["*", "/"]], 7),
+        ([["x", "a"], [], ["*", "pow"]], 5), ([["a", "x"], [], ["+", "*", "-"]], 5)]
+
+
+def pool(rng, n_sub, max_n, cap, shipped=True, min_n=1, deep=False):
     """List of configs dict(runname, basis|None, compl, nfun).  Predicted counts above `cap` are skipped."""
     out, skipped = [], []
+    if deep:
+        for b, n in DEEP:
+            k = nfun(b, n)
+            (out if k <= cap else skipped).append(dict(runname=basis_name(b), basis=b, compl=n, nfun=k))
     if shipped:
         for name, b in SHIPPED.items():
             for n in range(min_n, max_n + 1):
